@@ -974,3 +974,131 @@ func fieldOfValue(v ssa.Value, idx int, d int) ssa.Value {
 	}
 	return nil
 }
+
+// ---- loops whose first iteration is certain ----
+
+// lenOperand: v is len(x) or len(x) - k (k >= 0); returns x and k.
+func lenOperand(v ssa.Value) (ssa.Value, int64, bool) {
+	if c, ok := v.(*ssa.Call); ok {
+		if bi, ok := c.Call.Value.(*ssa.Builtin); ok && bi.Name() == "len" && len(c.Call.Args) == 1 {
+			return c.Call.Args[0], 0, true
+		}
+	}
+	if bo, ok := v.(*ssa.BinOp); ok && bo.Op == token.SUB {
+		if k, ok := ConstInt(bo.Y); ok && k >= 0 {
+			if x, k0, ok := lenOperand(bo.X); ok {
+				return x, k0 + k, true
+			}
+		}
+	}
+	return nil, 0, false
+}
+
+// lenLowerBound: the least value len(x) can have when block b is entered, from the If tests that
+// dominate b (len(x) > c, len(x) >= c, !(len(x) <= c), len(x) != 0 ...). -1 when nothing is known.
+func lenLowerBound(x ssa.Value, b *ssa.BasicBlock) int64 {
+	best := int64(-1)
+	for d := b.Idom(); d != nil; d = d.Idom() {
+		iff := IfOf(d)
+		if iff == nil || len(d.Succs) != 2 {
+			continue
+		}
+		// which edge leads to b
+		t := d.Succs[0].Dominates(b) && (len(d.Succs[0].Preds) == 1 || d.Succs[0] == b)
+		f := d.Succs[1].Dominates(b) && (len(d.Succs[1].Preds) == 1 || d.Succs[1] == b)
+		if t == f {
+			continue
+		}
+		bo, ok := CondValue(iff).(*ssa.BinOp)
+		if !ok {
+			continue
+		}
+		lx, k, ok := lenOperand(bo.X)
+		c, okc := ConstInt(bo.Y)
+		if !ok || !okc || k != 0 || !SameExpr(lx, x) {
+			continue
+		}
+		lb := int64(-1)
+		switch bo.Op {
+		case token.GTR: // len > c
+			if t {
+				lb = c + 1
+			}
+		case token.GEQ:
+			if t {
+				lb = c
+			}
+		case token.LEQ: // !(len <= c)
+			if f {
+				lb = c + 1
+			}
+		case token.LSS:
+			if f {
+				lb = c
+			}
+		case token.EQL:
+			if f && c == 0 {
+				lb = 1
+			}
+		case token.NEQ:
+			if t && c == 0 {
+				lb = 1
+			}
+		}
+		if lb > best {
+			best = lb
+		}
+	}
+	return best
+}
+
+// FirstTripCertain: h is the header of a counted loop `for i := a; i < len(x)-k; ...` (or <=) whose
+// test is certainly true when the loop is entered, because a dominating test bounds len(x) from
+// below. Returns the index of the successor edge that leaves the loop (taken only after at least one
+// iteration).
+func FirstTripCertain(h *ssa.BasicBlock) (exitSucc int, ok bool) {
+	iff := IfOf(h)
+	if iff == nil || len(h.Succs) != 2 {
+		return 0, false
+	}
+	bo, isB := iff.Cond.(*ssa.BinOp)
+	if !isB || (bo.Op != token.LSS && bo.Op != token.LEQ) {
+		return 0, false
+	}
+	phi, isPhi := bo.X.(*ssa.Phi)
+	if !isPhi || phi.Block() != h {
+		return 0, false
+	}
+	x, k, isLen := lenOperand(bo.Y)
+	if !isLen {
+		return 0, false
+	}
+	// entry edges (predecessors the header does not dominate) must carry a constant
+	start := int64(0)
+	nEntry := 0
+	for i, p := range h.Preds {
+		if h.Dominates(p) {
+			continue // latch
+		}
+		c, isC := ConstInt(phi.Edges[i])
+		if !isC {
+			return 0, false
+		}
+		if nEntry == 0 || c > start {
+			start = c
+		}
+		nEntry++
+	}
+	if nEntry == 0 || nEntry == len(h.Preds) {
+		return 0, false // not a loop header
+	}
+	lb := lenLowerBound(x, h)
+	if lb < 0 {
+		return 0, false
+	}
+	bound := lb - k
+	if (bo.Op == token.LSS && start < bound) || (bo.Op == token.LEQ && start <= bound) {
+		return 1, true // the true edge (0) enters the body
+	}
+	return 0, false
+}
